@@ -106,6 +106,22 @@ macro_rules! family {
                         });
                         m.pat_debug(pat_text(id), PAT_FILE, id as u32);
                     }
+                    MatcherKind::Macro(k) => {
+                        // the pattern as a user writes it; accept sets are MACRO_MASKS[k]
+                        let f: &dyn Fn(&mut Matching<F>) = match k % 8 {
+                            0 => unimock::matching!((0) | (3)),
+                            1 => unimock::matching!((1) | (2) | (6)),
+                            2 => unimock::matching!(2..=5),
+                            3 => unimock::matching!((x) if *x % 2 == 1),
+                            4 => unimock::matching!(_),
+                            5 => unimock::matching!(eq!(&4)),
+                            6 => unimock::matching!((0) | (1) | (2) | (3) | (4) | (5) | (6) | (7)),
+                            _ => unimock::matching!((0 | 1) | (3..=5)),
+                        };
+                        f(m);
+                        // keep the harness' own pattern identity in messages
+                        m.pat_debug(pat_text(id), PAT_FILE, id as u32);
+                    }
                 }
             }
 
@@ -323,11 +339,60 @@ pub fn push_clause(dc: &mut DynClause, clause: &ClauseSpec) {
     }
 }
 
-/// Build the clause list for a scenario (flat, in declaration order).
-pub fn build_clauses(clauses: &[ClauseSpec]) -> DynClause {
-    let mut dc = DynClause::new();
-    for c in clauses {
-        push_clause(&mut dc, c);
+/// A REAL tuple (production `Clause` impl of that arity) over run-time many sub-clauses.
+pub fn real_tuple(v: Vec<DynClause>) -> DynClause {
+    macro_rules! tuple_of {
+        ($v:ident; $($n:literal => [$($i:tt),*]),* $(,)?) => {
+            match $v.len() {
+                $( $n => {
+                    let mut it = $v.into_iter();
+                    let t = ( $( { let _ = $i; it.next().unwrap() } ),* ,);
+                    let mut dc = DynClause::new();
+                    dc.push(t);
+                    dc
+                } )*
+                n => panic!("HARNESS: no tuple impl of arity {n}"),
+            }
+        };
     }
-    dc
+    match v.len() {
+        0 => {
+            let mut dc = DynClause::new();
+            dc.push(());
+            dc
+        }
+        1 => v.into_iter().next().unwrap(),
+        n if n > 16 => {
+            // more than 16 clauses: a tuple of tuples, as a user would have to write it
+            let mut groups: Vec<DynClause> = vec![];
+            let mut it = v.into_iter().peekable();
+            while it.peek().is_some() {
+                let chunk: Vec<DynClause> = it.by_ref().take(16).collect();
+                groups.push(real_tuple(chunk));
+            }
+            real_tuple(groups)
+        }
+        _ => tuple_of!(v;
+            2 => [0, 1], 3 => [0, 1, 2], 4 => [0, 1, 2, 3], 5 => [0, 1, 2, 3, 4], 6 => [0, 1, 2, 3, 4, 5],
+            7 => [0, 1, 2, 3, 4, 5, 6], 8 => [0, 1, 2, 3, 4, 5, 6, 7], 9 => [0, 1, 2, 3, 4, 5, 6, 7, 8],
+            10 => [0, 1, 2, 3, 4, 5, 6, 7, 8, 9], 11 => [0, 1, 2, 3, 4, 5, 6, 7, 8, 9, 10],
+            12 => [0, 1, 2, 3, 4, 5, 6, 7, 8, 9, 10, 11], 13 => [0, 1, 2, 3, 4, 5, 6, 7, 8, 9, 10, 11, 12],
+            14 => [0, 1, 2, 3, 4, 5, 6, 7, 8, 9, 10, 11, 12, 13], 15 => [0, 1, 2, 3, 4, 5, 6, 7, 8, 9, 10, 11, 12, 13, 14],
+            16 => [0, 1, 2, 3, 4, 5, 6, 7, 8, 9, 10, 11, 12, 13, 14, 15]),
+    }
+}
+
+/// Build the clause list for a scenario (flat, in declaration order): every clause is wrapped
+/// on its own (its builder type is only known at run time) and the list is a REAL tuple of
+/// that arity, so the production tuple impl a user would get is what the mock is built from.
+pub fn build_clauses(clauses: &[ClauseSpec]) -> DynClause {
+    let leaves: Vec<DynClause> = clauses
+        .iter()
+        .map(|c| {
+            let mut dc = DynClause::new();
+            push_clause(&mut dc, c);
+            dc
+        })
+        .collect();
+    real_tuple(leaves)
 }
